@@ -1,8 +1,9 @@
 /- Line-protocol driver for the C16 model (ForML.Model.Serving).
 
-   cfg      ::= (cfg (caller*) (app*) ((app inst)*) workers locked)      caller ::= (app badEncoding kind payload)
+   cfg      ::= (cfg (caller*) (app*) ((app inst)*) workers locked)   caller ::= (app badEncoding badAccept kind payload)
    outcome  ::= (value inst payload) | (error kind)
    (replay cfg (step*))          → (ok stuck (answer*)) | (disabled k)       step ::= (arrive c) | (desc c) | …
+        plus the macro step (desc* c): thread c runs `_get_descriptor` from where it is until it leaves it
    (random cfg seed fuel)        → (ok stuck nsteps (answer*))
    (validate cfg (event*))       → (ok stuck (answer*)) | (reject reason k …)
         event ::= (arrive c) | (answer c outcome)    — the observable projection of a schedule
@@ -44,7 +45,7 @@ def ofOutcome : Outcome → Sexp
   | .error e => .list [.atom "error", .atom (errName e)]
 
 def caller? : Sexp → Option CallerSpec
-  | .list [a, b, k, p] => do pure ⟨← a.nat?, ← bool? b, ⟨← kind? k, ← p.nat?⟩⟩
+  | .list [a, b, ba, k, p] => do pure ⟨← a.nat?, ← bool? b, ← bool? ba, ⟨← kind? k, ← p.nat?⟩⟩
   | _ => none
 
 def pair? : Sexp → Option (Nat × Nat)
@@ -72,7 +73,17 @@ def step? : Sexp → Option Step
   | .list [.atom "take", i, w] => do pure (.take (← i.nat?) (← w.nat?))
   | .list [.atom "finish", i, w] => do pure (.finish (← i.nat?) (← w.nat?))
   | .list [.atom "deliver", i] => i.nat?.map .deliver
+  | .list [.atom "respond", c] => c.nat?.map .respond
   | _ => none
+
+/-- a schedule item: one step, or the macro `(desc* c)` -/
+inductive Item where
+  | one (a : Step)
+  | descAll (c : Nat)
+
+def item? : Sexp → Option Item
+  | .list [.atom "desc*", c] => c.nat?.map .descAll
+  | x => (step? x).map .one
 
 inductive Event where
   | arrive (c : Nat)
@@ -86,16 +97,33 @@ def event? : Sexp → Option Event
 def ofAnswers (as : List (Nat × Outcome)) : Sexp :=
   .list (as.reverse.map (fun a => .list [Sexp.ofNat a.1, ofOutcome a.2]))
 
-/-- run a schedule, reporting the index of the first step that is not enabled -/
-def replay (cfg : Config) : State → List Step → Nat → Except Nat State
-  | s, [], _ => .ok s
-  | s, a :: as, k => match step cfg s a with
-    | none => .error k
-    | some s' => replay cfg s' as (k + 1)
-
 def isCritical : Phase → Bool
   | .d1 | .d2 _ | .d3 _ | .d4 _ => true
   | _ => false
+
+/-- `desc c` once, then again while `c` is inside the critical section (at most 5 more) -/
+def descAll (cfg : Config) (c : Nat) (s : State) : Option State :=
+  match step cfg s (.desc c) with
+  | none => none
+  | some s1 =>
+    let rec go : Nat → State → Option State
+      | 0, st => some st
+      | n + 1, st => if isCritical (st.phase c) then
+          match step cfg st (.desc c) with
+          | none => none
+          | some st' => go n st'
+        else some st
+    go 5 s1
+
+/-- run a schedule, reporting the index of the first item that is not enabled -/
+def replay (cfg : Config) : State → List Item → Nat → Except Nat State
+  | s, [], _ => .ok s
+  | s, .one a :: as, k => match step cfg s a with
+    | none => .error k
+    | some s' => replay cfg s' as (k + 1)
+  | s, .descAll c :: as, k => match descAll cfg c s with
+    | none => .error k
+    | some s' => replay cfg s' as (k + 1)
 
 /-- the internal steps that bring caller `c` to its answer, taken greedily (unobservable steps may be delayed
 up to the answer they precede).  `wantMissing`: the observed answer is "application not found" for a known
@@ -142,6 +170,10 @@ def drive (cfg : Config) (c : Nat) (wantMissing : Bool) : Nat → State → Opti
       | some a => match step cfg s a with
         | none => none
         | some s' => drive cfg c false fuel s'
+    | .responding _ =>
+      match step cfg s (.respond c) with
+      | none => none
+      | some s' => drive cfg c false fuel s'
 
 /-- is the observed event sequence the projection of a schedule?  Returns the final state or the index and
 reason of the first event no schedule can produce. -/
@@ -174,7 +206,7 @@ def validate (cfg : Config) : State → List Nat → List Event → Nat → Exce
 
 def stepC16 : Sexp → Sexp
   | .list [.atom "replay", c, .list steps] =>
-    match cfg? c, steps.mapM step? with
+    match cfg? c, steps.mapM item? with
     | some cfg, some sched =>
       match replay cfg init sched 0 with
       | .error k => .list [.atom "disabled", Sexp.ofNat k]
